@@ -206,6 +206,84 @@ def ut_records(la, quick, rng):
   return recs
 
 
+def root_worker(args):
+  kind, pct, inst = args
+  import hashlib
+  import gmpy2
+  import sympy
+  from pv import art
+  shim.install()
+  from paranoid_crypto.lib import small_roots
+  rng = random.Random(hashlib.sha1(repr(args).encode()).hexdigest())
+  PB = 256
+  p = art.rand_prime_top2(rng, PB)
+  q = art.rand_prime_top2(rng, PB)
+  n = p * q
+  rec = R('root-%s-%d-%d' % (kind, pct, inst), 'root', {'kind': kind, 'pct': pct, 'pbits': PB})
+  try:
+    if kind.startswith('uni'):
+      ub = PB * pct // 100
+      b = 2 ** ub
+      x = sympy.Symbol('x')
+      if kind == 'uni_high':
+        p0 = (p >> ub) << ub
+        f = sympy.Poly(p0 + x, modulus=n)
+        want = lambda r: p0 + r == p
+      elif kind == 'uni_low':
+        l = PB - ub
+        p0 = p % 2 ** l
+        f = sympy.Poly(x * 2 ** l + p0, modulus=n)
+        want = lambda r: r * 2 ** l + p0 == p
+      else:
+        rx = rng.randrange(1, b)
+        p0 = p + rx
+        f = sympy.Poly(p0 - x, modulus=n)
+        want = lambda r: p0 - r == p
+      r = small_roots.univariate_modp(f, b)
+      rec['obs'] = {'none': r is None, 'is_root': r is not None and bool(want(int(r))), 'in_bound': r is not None and abs(int(r)) <= b}
+    elif kind == 'bi_modp':
+      u = PB * pct // 100
+      b1 = b2 = 2 ** u
+      x1, x2 = sympy.symbols('x1, x2')
+      known = PB - 2 * u
+      lx1 = known + u
+      p0 = ((p >> u) % 2 ** known) << u
+      f = sympy.Poly(p0 + x1 * 2 ** lx1 + x2, modulus=n)
+      roots = small_roots.multivariate_modp(f, [b1, b2])
+      ok = roots is not None and p0 + int(roots[0]) * 2 ** lx1 + int(roots[1]) == p
+      rec['obs'] = {'none': roots is None, 'is_root': bool(ok), 'in_bound': roots is not None and all(abs(int(r)) <= b1 for r in roots)}
+    else:
+      u = PB * pct // 100
+      b1 = b2 = 2 ** u
+      x1, x2 = sympy.symbols('x1, x2')
+      p0 = (p >> u) << u
+      q0 = (q >> u) << u
+      f = sympy.Poly((p0 + x1) * (q0 + x2), modulus=n)
+      roots = small_roots.multivariate_modn(f, [b1, b2])
+      ok = roots is not None and (p0 + int(roots[0])) * (q0 + int(roots[1])) == n
+      rec['obs'] = {'none': roots is None, 'is_root': bool(ok), 'in_bound': roots is not None and all(abs(int(r)) <= b1 for r in roots)}
+  except Exception as e:  # pylint: disable=broad-except
+    rec['raised'] = type(e).__name__
+  return rec
+
+
+def root_records(quick):
+  import multiprocessing as mp
+  jobs = []
+  for kind in ('uni_high', 'uni_low', 'uni_neg'):
+    for pct in (10, 25, 33, 39, 47):
+      for inst in range(1 if quick else 4):
+        jobs.append((kind, pct, inst))
+  for pct in (5, 9, 11, 14):
+    for inst in range(1 if quick else 3):
+      jobs.append(('bi_modp', pct, inst))
+  for pct in (20, 30, 33, 40):
+    for inst in range(1 if quick else 3):
+      jobs.append(('bi_modn', pct, inst))
+  with mp.get_context('fork').Pool(processes=12) as pool:
+    return list(pool.imap_unordered(root_worker, jobs, chunksize=1))
+
+
 def run(ctx):
   shim.install()
   from paranoid_crypto.lib import ntheory_util as nt, linalg_util as la
@@ -214,7 +292,8 @@ def run(ctx):
             'mpmath reference for the real-valued helpers (events aux; auxiliary monitor, not model checking)')
   ctx.assume('k = 0 is outside the domain of the 2-adic routines (modulo 1 the documented congruence 1 == a*n % 1 has no solution)')
   ctx.assume('solve_right may return None for any system; only returned vectors are judged (consistent systems with a planted solution)')
-  ctx.assume('small-root finders (sympy/LLL) are not driven by this check yet')
+  ctx.assume('small-root finders: soundness on every call; the planted root must be found when the unknown part is at most 39 % of the '
+             'size of p (univariate, default lattice), 11 % per chunk (two chunks modulo p), 33 % (bivariate modulo n) - catalogue instances')
   rng = ctx.rng
   # 1. model checking
   r = tlc.expect_holds('NTheory', 'MC_NTheory_quick.cfg' if ctx.quick else 'MC_NTheory.cfg', timeout=3600)
@@ -269,6 +348,7 @@ def run(ctx):
   recs += pavg_records(ls, ctx.quick, rng)
   recs += irwin_records(u, ctx.quick)
   recs += aux_records(u, ls, ctx.quick, rng)
+  recs += root_records(ctx.quick)
   if ctx.only_sid:
     recs = [x for x in recs if x['sid'] == ctx.only_sid]
   ctx.replayed = len(recs)
